@@ -6,7 +6,6 @@ import QExPy.Model.Plot
 namespace QExPy.Drv
 open Lean QExPy QExPy.Plot
 
-def getFBList (j : Json) : R (List FB) := do pure ((← getFList j).map FB.exact)
 
 def getRange (j : Json) : R (Option (FB × FB)) :=
   match j with
